@@ -414,7 +414,7 @@ theorem lenSV_toS (len : Option LenExpr) : (lenSV len).toS = lenText len := by
 
 set_option pp.deepTerms false in
 set_option pp.deepTerms.threshold 3 in
-theorem leaf_harmonyEnd (F d : Nat) (len : Option LenExpr) (q v : Option Int) (hl : lenOK len) (hv : ∀ x, v = some x → 0 ≤ x)
+theorem leaf_harmonyEnd (F d : Nat) (len : Option LenExpr) (q v : Option Int) (hl : lenOK len)
     (s : Song) (h : Inv s) (hf : s.harmonyFlag = true) :
     let tk := tok .harmonyEnd 0 [lenSV len, optInt (-1) q, velSV v]
     abs (leaf F d tk s) = chordEnd len q v (abs s) ∧ Inv (leaf F d tk s) ∧ (leaf F d tk s).harmonyFlag = false := by
@@ -437,7 +437,6 @@ theorem leaf_harmonyEnd (F d : Nat) (len : Option LenExpr) (q v : Option Int) (h
       simp only [Function.comp, absE, Core.chordFix, Core.tdiv]
       rcases q with _ | x <;> rcases v with _ | y
       all_goals (simp only [Option.getD, velSV])
-      all_goals (try (have hy := hv _ rfl))
       all_goals (repeat' split)
       all_goals (simp_all <;> try omega)
     · simp [abs, Core.St.setT]
@@ -541,7 +540,7 @@ def cwf : Cmd → Prop
   | .loop n b hb k => 1 ≤ n ∧ cwfL b ∧ cwfL k ∧ (hb = true ∨ k = [])
   | .sub b => cwfL b
   | .div b len => cwfL b ∧ lenOK len
-  | .chord b len _ v => cwfL b ∧ b.all simple = true ∧ lenOK len ∧ (∀ x, v = some x → 0 ≤ x)
+  | .chord b len _ _ => cwfL b ∧ b.all simple = true ∧ lenOK len
   | .voice _ | .keyShift _ | .trackKey _ | .keyFlag _ _ | .play _ => False
 def cwfL : List Cmd → Prop
   | [] => True
@@ -824,7 +823,7 @@ theorem refine (c : Cmd) (hw : cwf c) : ∀ d, depth c ≤ d → ∃ F0, ∀ F, 
     congr 1
   case chord b len q v =>
     simp only [cwf] at hw
-    obtain ⟨hwb, hsim, hl, hv⟩ := hw
+    obtain ⟨hwb, hsim, hl⟩ := hw
     simp only [depth] at hd
     obtain ⟨Fb, hFb⟩ := refineL b hwb d (by omega)
     refine ⟨Fb, fun F hF => ?_⟩
@@ -838,7 +837,7 @@ theorem refine (c : Cmd) (hw : cwf c) : ∀ d, depth c ≤ d → ∃ F0, ∀ F, 
     rw [hsing, hsing]
     obtain ⟨b1, b2, b3⟩ := leaf_harmonyBegin F d s hi hfl
     obtain ⟨c1, c2, c3⟩ := (hFb F hF) _ b2 (fun h => by simp [hsim] at h)
-    obtain ⟨e1, e2, e3⟩ := leaf_harmonyEnd F d len q v hl hv _ c2 (by rw [c3, b3])
+    obtain ⟨e1, e2, e3⟩ := leaf_harmonyEnd F d len q v hl _ c2 (by rw [c3, b3])
     refine ⟨?_, e2, by rw [e3, hfl]⟩
     rw [e1, c1, b1, sem_chord]
 theorem refineL (cs : List Cmd) (hw : cwfL cs) : ∀ d, depthL cs ≤ d → ∃ F0, ∀ F, F0 ≤ F →
